@@ -31,6 +31,21 @@ def run(ctx):
     r4_verbatim(ctx, it)
     shared.check_token_ctors_verbatim(ctx, 'R4')     # no token class re-spells / strips the text it is given (ErrorToken's chain included)
     shared.check_cells_unmodified(ctx, 'R4')
+    # the ErrorToken is built INSIDE the handler that isolates the malformed cell: a constructor (of the class or of a base class)
+    # that can itself raise - a validation of the text it is given - turns the isolated error into a failed import
+    et_ = ctx.prog.cls(f'{N.TOKENS}.ErrorToken')
+    n_inits = 0
+    for c_ in ctx.prog.mro(et_):
+        init_ = c_.methods.get('__init__')
+        if init_ is None or init_.module.generated:
+            continue
+        n_inits += 1
+        raises_ = [x for x in walk_local(init_.node) if isinstance(x, (ast.Raise, ast.Assert))]
+        ctx.check(not raises_, 'R4', init_.loc, init_.qualname, f'error-token-constructor-raises:{c_.name}',
+                  f'{c_.name}.__init__ (constructor chain of ErrorToken) raises nothing',
+                  f'{c_.name}.__init__ can raise (`{src(raises_[0])[:60]}`): ErrorToken(<cell>, ...) is built inside the exception handler of '
+                  f'Importer.run, so for such a cell (e.g. an empty one) the import fails instead of reporting one error' if raises_ else '')
+    ctx.expect_count('R4', 'constructors in the chain of ErrorToken', n_inits, 3)
     shared.whole_cell_consumption(ctx, 'R5')
     # every occurrence of a cell is parsed (and, when malformed, reported) on its own; a malformed cell is never a null cell
     from . import c18
